@@ -547,7 +547,8 @@ func (x *Exec) unbox(t types.Type, v Term) Term {
 }
 
 func (x *Exec) implementsPred(iface types.Type, v Term) Term {
-	fn := "impl_" + sanitize(typeShort(iface))
+	// named by method set: a local interface type and an identical anonymous one are the same test
+	fn := "impl" + ifaceMethodSetName(iface)
 	x.X.declare(fn, fmt.Sprintf("(declare-fun %s (Int) Bool)", fn))
 	return sx(fn, sx("itype", v))
 }
